@@ -705,6 +705,147 @@ def kvs(line):
     return out
 
 
+
+
+def names_cli(ctx, broken):
+    """Sample names of file arguments: read_input_fastas in-process vs the model Impl/Names.lean
+    (about which T03_name_path / _plain / _other / _injective are proved) and vs the closed form the
+    theorems state, on structured and adversarial argument strings."""
+    rnd = random.Random(ctx.seed * 49979687 + 3)
+    thorough = ctx.tier == "thorough"
+    exts = ["fa", "fasta", "fastq", "fastq.gz"]
+    def variant(e):
+        out = []
+        for ch in e:
+            r = rnd.random()
+            out.append(ch.upper() if r < 0.3 else ("\u017f" if ch == "s" and r > 0.93 else ch))
+        return "".join(out)
+    stem_alpha = "abXY01_-. "
+    def stem(plain=True):
+        n = rnd.choice([1, 1, 2, 5, 12])
+        t = "".join(rnd.choice(stem_alpha + ("" if plain else "/\n\u00e9\u212a")) for _ in range(n))
+        return t or "x"
+    def dirp():
+        return "/".join(stem() for _ in range(rnd.randint(1, 3)))
+    files, expect = [], []
+    def add(f, want=None):
+        files.append(f); expect.append(want)
+    fixed = ["", ".", "/", ".fa", "/.fa", "//.fa", "a/.fa", "a/b/.fa", "x.fa.fa", "x.fastq.gz", "x.gz", "x.fastq.gz.fa", "x.fa.gz", "d.fa/y", "d.fa/y.fasta",
+             "a//x.fa", "/x.fa", "x.fq", "x.fna", "x.FA", "x.Fasta", "x.fa\u017fta", "x.fa\u017ftq.gz", "x.fastq.GZ", "x.fastK", "a/b\nc.fa", "a\n/c.fa", "c.fa\n",
+             "GCF_000005845.2.fa", "dir.v2/GCF_000005845.2.fasta", "x.fa ", " x.fa", "fa", "xfa", "x..fa", "./x.fa", "../x.fa", "a/./x.fastq", "\u00e9.fa", "a/\u00e9\u00e9.FASTQ.GZ", "x.fasta.fastq"]
+    for f in fixed:
+        add(f)
+    for _ in range(600 if thorough else 150):
+        r = rnd.random()
+        st, e = stem(), variant(rnd.choice(exts))
+        if r < 0.3:
+            if "/" not in st and "\n" not in st:
+                add(dirp() + "/" + st + "." + e, st)         # T03_name_path
+        elif r < 0.5:
+            add(st + "." + e, st)                             # T03_name_plain
+        elif r < 0.7:
+            add(stem(False) + rnd.choice([".", "", "/", "."]) + variant(rnd.choice(exts + ["fq", "fna", "gz", "fast", "fastaa"])))
+        else:
+            add("".join(rnd.choice("ab/.\nfFaAsStTqQgGzZ\u017f") for _ in range(rnd.randint(0, 12))))
+    hx = lambda t: t.encode("utf-8").hex() if t else "."
+    line = "names files=" + ",".join(hx(f) for f in files)
+    r = core.run_impl(ctx, [line], "names")[0]
+    m, _ = core.run_model(ctx, [line])[0]
+    got, mod = r.split(","), m.split(",")
+    evals = nontriv = 0
+    stats = {"stem_from_path": 0, "stem_plain": 0, "own_name": 0}
+    for f, want, g, mm in zip(files, expect, got, mod):
+        evals += 1
+        if g.startswith("!"):
+            return {"summary": {"evaluations": evals, "nontrivial": nontriv},
+                    "violation": {"kind": "names-path", "what": "read_input_fastas altered the path or added a second file", "file": f}}
+        name = bytes.fromhex(g).decode("utf-8") if g != "." else ""
+        if want is not None and name != want:
+            return {"summary": {"evaluations": evals, "nontrivial": nontriv},
+                    "violation": {"kind": "names-spec", "what": "sample name is not the base name without its extension (T03_name_path / T03_name_plain)",
+                                  "file": f, "name": name, "expected": want, "model_case": "names files=" + hx(f)}}
+        if g != mm:
+            return {"summary": {"evaluations": evals, "nontrivial": nontriv},
+                    "violation": {"kind": "names-model", "what": "model of read_input_fastas and the code disagree", "file": f, "name": name,
+                                  "model": mm, "model_case": "names files=" + hx(f)}, "no_input": want is not None}
+        if name != f:
+            nontriv += 1
+            stats["stem_from_path" if "/" in f and "/" not in name else "stem_plain"] += 1
+        else:
+            stats["own_name"] += 1
+    if len(got) != len(files) or len(mod) != len(files):
+        return {"summary": {"evaluations": evals, "nontrivial": nontriv},
+                "violation": {"kind": "names-model", "what": "number of names differs from the number of arguments", "impl": len(got), "model": len(mod), "files": len(files)}}
+    return {"summary": {"evaluations": evals, "nontrivial": nontriv, "arguments": stats}}
+
+def c09_snappy_cli(ctx, broken):
+    """C09, compression layer: every block the real compressor (snap, behind MergeSkaArray::save) writes is
+    checked against the hypothesis of T09_snappy_block - it parses as an element stream of the format,
+    the stream is well-formed, denotes the data and serialises back to the block - and the block decoder
+    model is compared with snap's decoder on the block and on truncated / bit-flipped copies."""
+    rnd = random.Random(ctx.seed * 86028121 + 5)
+    thorough = ctx.tier == "thorough"
+    rb = lambda n: bytes(rnd.randrange(256) for _ in range(n))
+    datas = [b"", b"\x07"]
+    for n in (1, 3, 4, 15, 16, 59, 60, 61, 62, 255, 256, 257, 300, 70000 if thorough else 3000):
+        datas.append(rb(min(n, 65536)))                                  # the literal length forms
+    for n in (5, 11, 12, 64, 65, 70, 1000, 65536 if thorough else 9000):
+        datas.append(bytes([rnd.randrange(256)]) * n)                    # runs: overlapping copies
+    for p_ in (2, 3, 7, 8, 100, 2047, 2048, 2049, 5000):
+        pat = rb(p_)
+        datas.append((pat * (20000 // p_ + 2))[:rnd.randint(p_ + 4, 4 * p_ + 300)])   # periodic: offsets around the 11-bit limit
+    for n in (200, 5000, 65536 if thorough else 20000):
+        datas.append(bytes(rnd.choice(b"ACGT-NRY") for _ in range(n)))   # the variant arrays of a table
+    # what ska itself compresses: the serialised struct of real tables, cut into the 64 KiB blocks of the frame writer
+    tabs = [(64, 31, 3, 300), (128, 41, 2, 150)] + ([(64, 17, 5, 6000), (128, 63, 3, 3000)] if thorough else [(64, 21, 4, 2500)])
+    for (w, k, nsamp, nrows) in tabs:
+        raw = bytes.fromhex(kvs(core.run_impl(ctx, [f"skf w={w} k={k} rc=1 table={rand_table_text(rnd, k, nsamp, nrows)}"], "c09z")[0])["hex"])
+        for i in range(0, len(raw), 65536):
+            datas.append(raw[i:i + 65536])
+    hx = lambda b: b.hex() if b else "."
+    cases = []
+    for d in datas:
+        nf = 60 if thorough else 24
+        tags = [f"t{rnd.randrange(0, len(d) // 2 + 4)}" for _ in range(nf // 4)]
+        tags += [f"f{rnd.randrange(0, min(len(d) + 3, 48))}.{rnd.randrange(8)}" for _ in range(nf // 2)]
+        tags += [f"f{rnd.randrange(0, len(d) + 3)}.{rnd.randrange(8)}" for _ in range(nf // 4)]
+        cases.append((d, tags, f"snapblock data={hx(d)} faults={','.join(tags)}"))
+    impl = core.run_impl(ctx, [c[2] for c in cases], "c09s")
+    mlines = [f"snapblock block={kvs(r)['block']} data={hx(d)} faults={','.join(tags)}" for (d, tags, _), r in zip(cases, impl)]
+    model = core.run_model(ctx, mlines)
+    evals = nontriv = 0
+    kinds_total = [0, 0, 0, 0, 0]
+    faults_ok = faults_err = 0
+    for (d, tags, line), r, (m, _) in zip(cases, impl, model):
+        evals += 1 + len(tags)
+        ri, mi = kvs(r), kvs(m)
+        if len(d) > 0:
+            nontriv += 1 + len(tags)
+        short = {"data_bytes": len(d), "data_head": d[:40].hex(), "block_head": ri.get("block", "")[:80]}
+        if ri.get("dec") != ri.get("want"):
+            return {"summary": {"evaluations": evals, "nontrivial": nontriv},
+                    "violation": {"kind": "c09-snappy-roundtrip", "what": "snap does not decode its own block to the data", **short}}
+        if not (mi.get("parse") == "1" and mi.get("wf") == "1" and mi.get("den") == "1" and mi.get("ser") == "1"):
+            return {"summary": {"evaluations": evals, "nontrivial": nontriv},
+                    "violation": {"kind": "c09-snappy-contract", "what": "a block written by the compressor is not a well-formed element stream denoting its data (hypothesis of T09_snappy_block)",
+                                  "model": {k_: mi.get(k_) for k_ in ("parse", "wf", "den", "ser", "kinds")}, **short}, "no_input": True}
+        if mi.get("dec") != ri.get("dec") or mi.get("muts") != ri.get("muts"):
+            a, b = ri.get("muts", "").split(","), mi.get("muts", "").split(",")
+            return {"summary": {"evaluations": evals, "nontrivial": nontriv},
+                    "violation": {"kind": "c09-snappy-model", "what": "block decoder model and snap disagree", "dec": [ri.get("dec"), mi.get("dec")],
+                                  "examples": [(x, y) for x, y in zip(a, b) if x != y][:5], **short}, "no_input": True}
+        for i, v in enumerate(mi.get("kinds", "0/0/0/0/0").split("/")):
+            kinds_total[i] += int(v)
+        for x in ri.get("muts", "").split(","):
+            if x.endswith(":err"):
+                faults_err += 1
+            elif x:
+                faults_ok += 1
+    return {"summary": {"evaluations": evals, "nontrivial": nontriv, "blocks": len(cases),
+                        "block_sizes": sorted(len(c[0]) for c in cases)[::max(1, len(cases) // 12)],
+                        "elements_seen": dict(zip(["literal_short", "literal_long", "copy1", "copy2", "copy4"], kinds_total)),
+                        "damaged_copies": {"decoded": faults_ok, "rejected": faults_err}}}
+
 def c09_cli(ctx, broken):
     rnd = random.Random(ctx.seed * 32452843 + 17)
     per_k = 12 if ctx.tier == "thorough" else 2
